@@ -2,6 +2,7 @@
 """Developer helper: run cargo kani for some harness filters and print one line per harness.
 usage: kr.py [-j N] [-t secs] [-s slot] filter..."""
 import json, os, subprocess, sys, time
+from collections import Counter
 args = sys.argv[1:]
 j, t, slot = 8, 600, "slot0"
 fl = []
@@ -33,6 +34,8 @@ for r in d["verification_results"]["results"]:
     print("%-60s %-8s %6.0fs checks=%d solver=%.0fs symex=%.0fs %s %s" % (r["harness_id"], r["status"], r["duration_ms"]/1000, len(ch),
           st.get("runtime_solver_s") or 0, st.get("runtime_symex_s") or 0,
           ("UNCOVERED:" + ";".join(unsat)) if unsat else "", ""))
+    if r["status"] != "Success":
+        print("      statuses:", dict(Counter(c["status"] for c in ch)), [ (c["description"][:60], c["status"]) for c in ch if c["status"] not in ("Success","Unreachable","Failure","Satisfied")][:4])
     for c in failed[:6]:
         loc = c.get("location") or {}
         print("      FAIL: %s @ %s:%s" % (c["description"][:100], loc.get("file", "?").replace("/repo/", ""), loc.get("line")))
